@@ -1074,13 +1074,370 @@ Proof.
   - pick_tau (TCloseWrite t). unfold step. rewrite Hg, Hpc. reflexivity.
   - pick_tau (TCloseCh t). unfold step. rewrite Hg, Hpc. reflexivity.
   - destruct r; [pick_ret (LRetSend t RNil) | pick_ret (LRetSend t RCtx) | pick_ret (LRetSend t RClosedPipe)
-                 | pick_ret (LRetSend t RSErr)]; unfold step; rewrite Hg, Hpc; try reflexivity.
-    destruct (g_closing s); reflexivity.
+                 | pick_ret (LRetSend t RSErr)]; unfold step; rewrite Hg, Hpc; reflexivity.
   - destruct ok, r;
       [pick_ret (LRetTrySend t true RNil) | pick_ret (LRetTrySend t true RCtx) | pick_ret (LRetTrySend t true RClosedPipe)
        | pick_ret (LRetTrySend t true RSErr) | pick_ret (LRetTrySend t false RNil) | pick_ret (LRetTrySend t false RCtx)
        | pick_ret (LRetTrySend t false RClosedPipe) | pick_ret (LRetTrySend t false RSErr)];
-      unfold step; rewrite Hg, Hpc; simpl; try reflexivity.
-    destruct (negb (g_closing s)); reflexivity.
+      unfold step; rewrite Hg, Hpc; reflexivity.
   - pick_ret (LRetClose t). unfold step. rewrite Hg, Hpc. reflexivity.
+Qed.
+
+(* a parked Send is blocked for exactly the documented reasons *)
+Theorem parked_send_blocked n nt nc s t x c :
+  reachable qstep (init n nt nc) s -> getT s t = Some x -> t_pc x = SParked c ->
+  rdone s = false /\ sdone s = false /\ ctx_done s c = false /\ rparked (rcv s) = false /\ has_room s = false.
+Proof.
+  intros Hr Hg Hpc. apply Inv_reachable in Hr. pose proof (inv_ths s Hr t x Hg) as Hx.
+  assert (Hpk : pc_parked (t_pc x) = true) by (rewrite Hpc; reflexivity).
+  destruct (tk_park _ _ _ Hx Hpk) as (Ha & Hb & Hc & Hd).
+  repeat split; try assumption.
+  - exact (tk_pctx _ _ _ Hx c Hpc).
+  - unfold has_room. apply Nat.ltb_ge. exact Hd.
+Qed.
+
+(* MAIN (Send): a pending Send can take a step of its own as soon as the receiver is closed, the sender
+   is closed, its context is done, a receiver is waiting, or the buffer has room *)
+Theorem send_not_stuck n nt nc s t x c :
+  reachable qstep (init n nt nc) s -> getT s t = Some x ->
+  t_pc x = SPre c \/ t_pc x = SSel c \/ t_pc x = SParked c ->
+  rdone s = true \/ sdone s = true \/ ctx_done s c = true \/ rparked (rcv s) = true \/ has_room s = true ->
+  can_move s t.
+Proof.
+  intros Hr Hg Hpc Hcond. destruct Hpc as [Hpc|[Hpc|Hpc]].
+  - apply (sender_can_move s t x Hg); rewrite Hpc; intros; discriminate.
+  - apply (sender_can_move s t x Hg); rewrite Hpc; intros; discriminate.
+  - destruct (parked_send_blocked _ _ _ _ _ _ _ Hr Hg Hpc) as (Ha & Hb & Hc & Hd & He).
+    destruct Hcond as [H|[H|[H|[H|H]]]]; congruence.
+Qed.
+
+(* a decided call returns *)
+Theorem send_returns s t x b r : getT s t = Some x -> t_pc x = SRetSend b r -> can_move s t.
+Proof. intros Hg Hpc. apply (sender_can_move s t x Hg); rewrite Hpc; intros; discriminate. Qed.
+
+(* MAIN (TrySend): in EVERY state (no reachability assumption) a pending TrySend has a step: it never parks *)
+Theorem trysend_never_blocks s t x :
+  getT s t = Some x ->
+  (exists c, t_pc x = TPoll c) \/ (exists c, t_pc x = TSel2 c) \/ (exists ok r, t_pc x = SRetTry ok r) ->
+  can_move s t.
+Proof.
+  intros Hg [[c Hpc]|[[c Hpc]|[ok [r Hpc]]]]; apply (sender_can_move s t x Hg); rewrite Hpc; intros; discriminate.
+Qed.
+
+(* PipeSender.Close never blocks *)
+Theorem close_never_blocks s t x :
+  getT s t = Some x -> (exists e, t_pc x = CWrite e) \/ t_pc x = CCloseCh \/ t_pc x = SRetClose -> can_move s t.
+Proof.
+  intros Hg [[e Hpc]|[Hpc|Hpc]]; apply (sender_can_move s t x Hg); rewrite Hpc; intros; discriminate.
+Qed.
+
+(* the receiver's Close never blocks *)
+Theorem rclose_never_blocks s :
+  (rcl s = RCCalled -> enabled s TRClose = true) /\ (rcl s = RCClosed -> enabled s LRetRClose = true).
+Proof. split; intros H; unfold enabled, step; rewrite H; reflexivity. Qed.
+
+Lemma take_enabled s :
+  chan_empty s = false ->
+  exists o, In (TRecvTake o) (recv_taus s) /\ In (TDrainTake o) (recv_taus s) /\ exists s', do_take s o = Some s'.
+Proof.
+  intros Hce. unfold chan_empty in Hce. destruct (existsb is_sparked (ths s)) eqn:He.
+  - apply existsb_true_nth in He. destruct He as (t & x & Hn & Hp). exists (Some t).
+    assert (Hin : In t (seq 0 (length (ths s)))) by (apply in_seq; split; [lia | simpl; eapply nth_lt; eauto]).
+    split; [|split].
+    + unfold recv_taus. apply in_or_app; right. apply in_flat_map. exists t. split; [exact Hin | left; reflexivity].
+    + unfold recv_taus. apply in_or_app; right. apply in_flat_map. exists t. split; [exact Hin | right; left; reflexivity].
+    + unfold do_take, getT. rewrite Hn. unfold is_sparked in Hp. destruct (t_pc x); try discriminate Hp.
+      destruct (buf s ++ [(t, t_idx x)]) as [|v b] eqn:E; [destruct (buf s); discriminate E | eauto].
+  - destruct (buf s) as [|v b] eqn:Hbuf; [discriminate Hce|]. exists None. split; [|split].
+    + unfold recv_taus. apply in_or_app; left. in_list.
+    + unfold recv_taus. apply in_or_app; left. in_list.
+    + unfold do_take. rewrite He, Hbuf. eauto.
+Qed.
+
+(* a parked Next is blocked for exactly the documented reasons: nothing buffered, no sender offering a
+   value, sender open, context live *)
+Theorem parked_next_blocked n nt nc s c :
+  reachable qstep (init n nt nc) s -> rcv s = RParked c ->
+  chan_empty s = true /\ sdone s = false /\ ctx_done s c = false.
+Proof.
+  intros Hr Hrc. apply Inv_reachable in Hr. destruct (inv_rpark s Hr c Hrc) as (Hb & Hsd & Hcd).
+  repeat split; try assumption. unfold chan_empty. rewrite Hb.
+  destruct (existsb is_sparked (ths s)) eqn:He; [|reflexivity].
+  apply existsb_true_nth in He. destruct He as (t & x & Hn & Hp).
+  pose proof (inv_ths s Hr t x Hn) as Hx. change (is_sparked x) with (pc_parked (t_pc x)) in Hp.
+  destruct (tk_park _ _ _ Hx Hp) as (_ & _ & Hc & _). rewrite Hrc in Hc. discriminate Hc.
+Qed.
+
+(* MAIN (Next): a pending Next can take a step as soon as a value is buffered or offered by a parked
+   sender, the sender is closed, or its context is done *)
+Theorem next_not_stuck n nt nc s :
+  reachable qstep (init n nt nc) s -> rcv s <> RIdle ->
+  (forall c, rcv s = RParked c -> chan_empty s = false \/ sdone s = true \/ ctx_done s c = true) ->
+  recv_can_move s.
+Proof.
+  intros Hr Hni Hcond. unfold recv_can_move, recv_labels, enabled. destruct (rcv s) as [|c|c| |r] eqn:Hrc.
+  - congruence.
+  - destruct (ctx_done s c) eqn:E1.
+    { exists TRecvCtx. split; [apply in_or_app; left; unfold recv_taus; apply in_or_app; left; in_list|].
+      unfold step. rewrite Hrc, E1. reflexivity. }
+    destruct (sdone s) eqn:E2.
+    { exists TRecvSDone. split; [apply in_or_app; left; unfold recv_taus; apply in_or_app; left; in_list|].
+      unfold step. rewrite Hrc, E2. reflexivity. }
+    destruct (chan_empty s) eqn:E3.
+    { exists TRecvPark. split; [apply in_or_app; left; unfold recv_taus; apply in_or_app; left; in_list|].
+      unfold step. rewrite Hrc, E1, E2, E3. reflexivity. }
+    destruct (take_enabled s E3) as (o & Hin & _ & s1 & Ht).
+    exists (TRecvTake o). split; [apply in_or_app; left; exact Hin|]. unfold step. rewrite Hrc, Ht. reflexivity.
+  - destruct (parked_next_blocked _ _ _ _ _ Hr Hrc) as (Ha & Hb & Hc).
+    destruct (Hcond c eq_refl) as [H|[H|H]]; congruence.
+  - destruct (chan_empty s) eqn:E3.
+    { exists TDrainEmpty. split; [apply in_or_app; left; unfold recv_taus; apply in_or_app; left; in_list|].
+      unfold step. rewrite Hrc, E3. reflexivity. }
+    destruct (take_enabled s E3) as (o & _ & Hin & s1 & Ht).
+    exists (TDrainTake o). split; [apply in_or_app; left; exact Hin|]. unfold step. rewrite Hrc, Ht. reflexivity.
+  - exists (LRetNext r). split; [apply in_or_app; right; left; reflexivity|].
+    unfold step. rewrite Hrc. destruct r as [[a b]| | |]; try reflexivity. rewrite !Nat.eqb_refl. reflexivity.
+Qed.
+
+(* ================================================================== *)
+(* variant: the library cannot take internal steps forever              *)
+(* ================================================================== *)
+
+Definition rank_spc (p : spc) : nat :=
+  match p with
+  | SIdle => 0
+  | SPre _ => 4
+  | SSel _ | TPoll _ | CWrite _ => 3
+  | SParked _ | TSel2 _ | CCloseCh => 2
+  | SRetSend _ _ | SRetTry _ _ | SRetClose => 1
+  end.
+Definition rank_thr (x : thread) : nat := rank_spc (t_pc x).
+Definition rank_rpc (r : rpc) : nat :=
+  match r with RIdle => 0 | RSel _ => 4 | RParked _ => 3 | RDrain => 2 | RRet _ => 1 end.
+Definition rank_rcl (r : rcpc) : nat := match r with RCCalled => 1 | _ => 0 end.
+Definition rank_ctx (c : cstate) : nat := match c with CReq => 1 | _ => 0 end.
+
+(* number of internal steps the calls in progress can still take *)
+Definition measure (s : st) : nat :=
+  list_sum (map rank_thr (ths s)) + rank_rpc (rcv s) + rank_rcl (rcl s) + list_sum (map rank_ctx (ctxs s)).
+
+Definition is_tau (l : lab) : bool := match vis l with None => true | Some _ => false end.
+
+Lemma sum_upd {A} (f : A -> nat) l t x x' :
+  nth_error l t = Some x -> list_sum (map f (upd l t x')) + f x = list_sum (map f l) + f x'.
+Proof.
+  revert t. induction l as [|h l IH]; intros [|t] Hn; simpl in *; try discriminate.
+  - inversion Hn; subst. lia.
+  - specialize (IH t Hn). lia.
+Qed.
+
+Lemma sum_upd_pc l t x p' :
+  nth_error l t = Some x ->
+  list_sum (map rank_thr (upd l t (set_pc x p'))) + rank_spc (t_pc x) = list_sum (map rank_thr l) + rank_spc p'.
+Proof. intros H. exact (sum_upd rank_thr l t x (set_pc x p') H). Qed.
+
+Lemma sum_map_le {A} (f : A -> nat) g l :
+  (forall x, f (g x) <= f x) -> list_sum (map f (map g l)) <= list_sum (map f l).
+Proof. intros H. induction l as [|h l IH]; simpl; [lia|]. specialize (H h). lia. Qed.
+
+Lemma rank_wake_all r x : rank_thr (wake_all r x) <= rank_thr x.
+Proof. unfold wake_all, rank_thr. destruct (t_pc x) eqn:E; simpl; rewrite ?E; simpl; lia. Qed.
+
+Lemma rank_wake_ctx c x : rank_thr (wake_ctx c x) <= rank_thr x.
+Proof.
+  unfold wake_ctx, rank_thr. destruct (t_pc x) eqn:E; simpl; rewrite ?E; simpl; try lia.
+  destruct (Nat.eqb c0 c); simpl; rewrite ?E; simpl; lia.
+Qed.
+
+Lemma do_take_measure s o s' :
+  do_take s o = Some s' -> 2 <= rank_rpc (rcv s) -> measure s' < measure s.
+Proof.
+  intros H Hr. apply do_take_inv in H.
+  destruct H as [(_ & _ & v & b & _ & ->)|(t & x & c & v & b & _ & Hg & Hpc & _ & ->)]; unfold measure; simpl.
+  - lia.
+  - pose proof (sum_upd_pc (ths s) t x (SRetSend true RNil) Hg) as Hs.
+    rewrite Hpc in Hs. simpl in Hs. lia.
+Qed.
+
+Ltac var_thread s t x x' Hg Hpc :=
+  let Hs := fresh "Hs" in
+  pose proof (sum_upd_pc (ths s) t x x' Hg) as Hs;
+  rewrite Hpc in Hs; simpl in Hs;
+  unfold measure; simpl; lia.
+
+Theorem tau_variant s l s' : is_tau l = true -> step s l = Some s' -> measure s' < measure s.
+Proof.
+  intros Ht H. destruct l; try discriminate Ht; clear Ht; unfold step in H.
+  - tstep H x Hg Hpc. st_guards H; inv_some H.
+    + var_thread s t x (SRetSend false (errres s)) Hg Hpc.
+    + var_thread s t x (SSel c) Hg Hpc.
+  - tstep H x Hg Hpc. st_guards H; inv_some H. var_thread s t x (SRetSend false RCtx) Hg Hpc.
+  - tstep H x Hg Hpc. st_guards H; inv_some H. var_thread s t x (SRetSend false RClosedPipe) Hg Hpc.
+  - tstep H x Hg Hpc. st_guards H; inv_some H. var_thread s t x (SRetSend false (errres s)) Hg Hpc.
+  - tstep H x Hg Hpc. st_guards H; inv_some H. var_thread s t x (SRetSend true RNil) Hg Hpc.
+  - tstep H x Hg Hpc. st_guards H; inv_some H.
+    pose proof (sum_upd_pc (ths s) t x (SRetSend true RNil) Hg) as Hs. rewrite Hpc in Hs. simpl in Hs.
+    unfold measure. simpl. destruct (rcv s); simpl in *; try discriminate; lia.
+  - tstep H x Hg Hpc. st_guards H; inv_some H. var_thread s t x (SParked c) Hg Hpc.
+  - tstep H x Hg Hpc. st_guards H; inv_some H. var_thread s t x (SRetTry false RCtx) Hg Hpc.
+  - tstep H x Hg Hpc. st_guards H; inv_some H. var_thread s t x (SRetTry false RClosedPipe) Hg Hpc.
+  - tstep H x Hg Hpc. st_guards H; inv_some H. var_thread s t x (SRetTry false (errres s)) Hg Hpc.
+  - tstep H x Hg Hpc. st_guards H; inv_some H. var_thread s t x (TSel2 c) Hg Hpc.
+  - tstep H x Hg Hpc. st_guards H; inv_some H. var_thread s t x (SRetTry true RNil) Hg Hpc.
+  - tstep H x Hg Hpc. st_guards H; inv_some H.
+    pose proof (sum_upd_pc (ths s) t x (SRetTry true RNil) Hg) as Hs. rewrite Hpc in Hs. simpl in Hs.
+    unfold measure. simpl. destruct (rcv s); simpl in *; try discriminate; lia.
+  - tstep H x Hg Hpc. st_guards H; inv_some H. var_thread s t x (SRetTry false RNil) Hg Hpc.
+  - tstep H x Hg Hpc. inv_some H. var_thread s t x CCloseCh Hg Hpc.
+  - tstep H x Hg Hpc. inv_some H.
+    assert (Hw : nth_error (map (wake_all (errres s)) (ths s)) t = Some x).
+    { rewrite nth_map. unfold getT in Hg. rewrite Hg. simpl. unfold wake_all. rewrite Hpc. reflexivity. }
+    pose proof (sum_upd_pc _ t x SRetClose Hw) as Hs. rewrite Hpc in Hs. simpl in Hs.
+    pose proof (sum_map_le rank_thr (wake_all (errres s)) (ths s) (rank_wake_all _)) as Hle.
+    unfold measure. simpl. destruct (rcv s); simpl; lia.
+  - destruct (rcv s) as [|c| | |] eqn:Hr; try discriminate H. st_guards H; inv_some H.
+    unfold measure; simpl; rewrite Hr; simpl; lia.
+  - destruct (rcv s) eqn:Hr; try discriminate H. eapply do_take_measure; [exact H | rewrite Hr; simpl; lia].
+  - destruct (rcv s) as [|c| | |] eqn:Hr; try discriminate H. st_guards H; inv_some H.
+    unfold measure; simpl; rewrite Hr; simpl; lia.
+  - destruct (rcv s) as [|c| | |] eqn:Hr; try discriminate H. st_guards H; inv_some H.
+    unfold measure; simpl; rewrite Hr; simpl; lia.
+  - destruct (rcv s) eqn:Hr; try discriminate H. eapply do_take_measure; [exact H | rewrite Hr; simpl; lia].
+  - destruct (rcv s) eqn:Hr; try discriminate H. st_guards H; inv_some H.
+    unfold measure; simpl; rewrite Hr; simpl; lia.
+  - destruct (rcl s) eqn:Hr; try discriminate H. inv_some H.
+    pose proof (sum_map_le rank_thr (wake_all RClosedPipe) (ths s) (rank_wake_all _)) as Hle.
+    unfold measure; simpl; rewrite Hr; simpl; lia.
+  - destruct (nth_error (ctxs s) c) as [[| |]|] eqn:Hc; try discriminate H. inv_some H.
+    pose proof (sum_upd rank_ctx (ctxs s) c CReq CDone Hc) as Hs. simpl in Hs.
+    pose proof (sum_map_le rank_thr (wake_ctx c) (ths s) (rank_wake_ctx _)) as Hle.
+    unfold measure; simpl. destruct (rcv s) as [|c1|c1| |r1]; simpl; try lia.
+    destruct (Nat.eqb c1 c); simpl; lia.
+Qed.
+
+(* hence any run consisting of internal steps only is no longer than the measure of its first state *)
+Corollary tau_runs_bounded s ls s' :
+  Forall (fun l => is_tau l = true) ls -> run step s ls = Some s' -> length ls + measure s' <= measure s.
+Proof.
+  revert s. induction ls as [|l ls IH]; intros s HF Hr; simpl in *.
+  - inversion Hr; subst. lia.
+  - inversion HF as [|l' ls' Hl HF']; subst. destruct (step s l) as [s1|] eqn:E; [|discriminate Hr].
+    pose proof (tau_variant _ _ _ Hl E). specialize (IH s1 HF' Hr). lia.
+Qed.
+
+(* the three progress clauses together *)
+Theorem no_stuck_call n nt nc s :
+  reachable qstep (init n nt nc) s ->
+  (forall t x c, getT s t = Some x ->
+     t_pc x = SPre c \/ t_pc x = SSel c \/ t_pc x = SParked c ->
+     rdone s = true \/ sdone s = true \/ ctx_done s c = true \/ rparked (rcv s) = true \/ has_room s = true ->
+     can_move s t) /\
+  (forall t x, getT s t = Some x ->
+     (exists c, t_pc x = TPoll c) \/ (exists c, t_pc x = TSel2 c) \/ (exists ok r, t_pc x = SRetTry ok r) ->
+     can_move s t) /\
+  (rcv s <> RIdle ->
+   (forall c, rcv s = RParked c -> chan_empty s = false \/ sdone s = true \/ ctx_done s c = true) ->
+   recv_can_move s).
+Proof.
+  intros Hr. split; [|split].
+  - intros t x c. apply (send_not_stuck n nt nc). exact Hr.
+  - intros t x. apply trysend_never_blocks.
+  - apply (next_not_stuck n nt nc). exact Hr.
+Qed.
+
+(* ================================================================== *)
+(* non-vacuity: the model runs, and the hypotheses are satisfiable      *)
+(* ================================================================== *)
+
+Definition summary (o : option st) :=
+  option_map (fun s => (g_sent s, g_acked s, g_comm s, g_ret s, buf s)) o.
+
+(* buffer 2: two Sends return nil, Close(nil), three Nexts: both values, then End (the drain at work) *)
+Definition run_buffered : list lab :=
+  [LCallSend 0 0; TPrePoll 0; TSendEnq 0; LRetSend 0 RNil;
+   LCallSend 0 0; TPrePoll 0; TSendEnq 0; LRetSend 0 RNil;
+   LCallClose 0 false; TCloseWrite 0; TCloseCh 0; LRetClose 0; LQuiesce;
+   LCallNext 1; TRecvSDone; TDrainTake None; LRetNext (VVal (0, 0));
+   LCallNext 1; TRecvTake None; LRetNext (VVal (0, 1));
+   LCallNext 1; TRecvSDone; TDrainEmpty].
+
+Example ex_buffered_then_end :
+  summary (run qstep (init 2 1 2) run_buffered)
+  = Some ([(0, 0); (0, 1)], [(0, 0); (0, 1)], [(0, 0); (0, 1)], [(0, 0); (0, 1)], [])
+  /\ option_map rcv (run qstep (init 2 1 2) run_buffered) = Some (RRet VEnd).
+Proof. vm_compute. split; reflexivity. Qed.
+
+(* the hypotheses of [no_loss_before_end] are satisfiable: the run above continues with LRetNext VEnd *)
+Example ex_no_loss_hyp :
+  exists s s', reachable qstep (init 2 1 2) s /\ qstep s (LRetNext VEnd) = Some s' /\ g_acked s = [(0, 0); (0, 1)].
+Proof.
+  destruct (run qstep (init 2 1 2) run_buffered) as [s|] eqn:E; [|vm_compute in E; discriminate E].
+  exists s. assert (Hs : exists s', qstep s (LRetNext VEnd) = Some s' /\ g_acked s = [(0, 0); (0, 1)]).
+  { vm_compute in E. inversion E; subst s. vm_compute. eexists. split; reflexivity. }
+  destruct Hs as (s' & H1 & H2). exists s'. split; [exists run_buffered; exact E | split; assumption].
+Qed.
+
+(* capacity 0, two senders: both park, the receiver takes sender 1's value first (rendezvous), then
+   sender 0's; a third Next parks and is woken by Close(err) *)
+Definition run_rendezvous : list lab :=
+  [LCallSend 0 0; LCallSend 1 1; TPrePoll 0; TPrePoll 1; TSendPark 0; TSendPark 1; LQuiesce;
+   LCallNext 2; TRecvTake (Some 1); LRetNext (VVal (1, 0)); LRetSend 1 RNil;
+   LCallNext 2; TRecvTake (Some 0); LRetSend 0 RNil; LRetNext (VVal (0, 0));
+   LCallNext 2; TRecvPark; LQuiesce;
+   LCallClose 1 true; TCloseWrite 1; TCloseCh 1; LRetClose 1; TDrainEmpty; LRetNext VErr; LQuiesce].
+
+Example ex_rendezvous :
+  summary (run qstep (init 0 2 3) run_rendezvous)
+  = Some ([(0, 0); (1, 0)], [(1, 0); (0, 0)], [(1, 0); (0, 0)], [(1, 0); (0, 0)], []).
+Proof. vm_compute. reflexivity. Qed.
+
+(* a reachable state with a parked Send and one with a parked Next (hypotheses of the "blocked only for
+   the documented reason" theorems) *)
+Example ex_parked_send :
+  option_map (fun s => (map t_pc (ths s), rcv s))
+             (run qstep (init 0 1 1) [LCallSend 0 0; TPrePoll 0; TSendPark 0; LQuiesce])
+  = Some ([SParked 0], RIdle).
+Proof. vm_compute. reflexivity. Qed.
+
+Example ex_parked_next :
+  option_map rcv (run qstep (init 1 1 1) [LCallNext 0; TRecvPark; LQuiesce]) = Some (RParked 0).
+Proof. vm_compute. reflexivity. Qed.
+
+(* cancellation wakes a parked Send and a parked Next; receiver Close wakes a parked Send *)
+Example ex_cancel_and_rclose :
+  option_map (fun s => (map t_pc (ths s), rcv s))
+    (run qstep (init 0 2 3)
+       [LCallSend 0 0; TPrePoll 0; TSendPark 0; LCancel 0; TCancelEff 0; LRetSend 0 RCtx;
+        LCallSend 1 1; TPrePoll 1; TSendPark 1; LCallRClose; TRClose; LRetRClose; LRetSend 1 RClosedPipe;
+        LCallNext 2; TRecvPark; LCancel 2; TCancelEff 2; LRetNext VCtx; LQuiesce])
+  = Some ([SIdle; SIdle], RIdle).
+Proof. vm_compute. reflexivity. Qed.
+
+(* a settled state is reachable: buffer drained, sender closed, End determined *)
+Example ex_settled :
+  exists s, run qstep (init 2 1 2) run_buffered = Some s /\ settled s.
+Proof.
+  destruct (run qstep (init 2 1 2) run_buffered) as [s|] eqn:E; [|vm_compute in E; discriminate E].
+  exists s. split; [reflexivity|]. vm_compute in E. inversion E; subst s.
+  constructor; simpl; try reflexivity.
+  intros t x Hn. destruct t as [|t]; simpl in Hn; [inversion Hn; reflexivity | destruct t; discriminate Hn].
+Qed.
+
+(* WHY the stickiness clause needs "no Send in flight": a Send that passed its senderDone poll before the
+   close may still enter the buffer after a Next has reported the end; the next Next then returns its
+   value.  (The unconditional claim "after End every Next reports End" is refuted by this run.) *)
+Definition run_end_then_value : list lab :=
+  [LCallSend 0 0; TPrePoll 0;                                   (* Send is past the poll, not yet in the select *)
+   LCallClose 1 false; TCloseWrite 1; TCloseCh 1; LRetClose 1;  (* the sender is closed *)
+   LCallNext 1; TRecvSDone; TDrainEmpty; LRetNext VEnd;         (* End reported: the buffer is empty *)
+   TSendEnq 0; LRetSend 0 RNil;                                 (* the select picks the ready [c <- x] arm *)
+   LCallNext 1; TRecvTake None; LRetNext (VVal (0, 0))].        (* ... and the value arrives after End *)
+
+Example end_sticky_unconditional_refuted :
+  exists s, run qstep (init 1 2 2) run_end_then_value = Some s /\ g_ret s = [(0, 0)] /\
+            In (LRetNext VEnd) (firstn 10 run_end_then_value).
+Proof.
+  destruct (run qstep (init 1 2 2) run_end_then_value) as [s|] eqn:E; [|vm_compute in E; discriminate E].
+  exists s. split; [reflexivity|]. vm_compute in E. inversion E; subst s. split; [reflexivity|].
+  simpl. repeat (first [left; reflexivity | right]).
 Qed.
